@@ -20,7 +20,7 @@ RULE = (
     "thorough tier widens every bound by one.  (b) Random larger trees (from the description "
     "generator) with none or exactly one injected violation of each rule at a random position, plus "
     "plug-in clauses: unknown-struct bindings, equal CAN ids (same bus / different buses / CAN + non-"
-    "CAN), CAN message sizes 57..72 bits with the excess in a scalar, array, array of structs, enum or nested struct.  "
+    "CAN), CAN message sizes 57..72 bits with the excess in a scalar, array, array of structs, enum or nested struct; every third random tree also with one declaration listed twice as the SAME node object.  "
     "(c) 3-6 random permutations of the declaration lists of every tree.  Each tree is verified "
     "with a fresh verifier (and, for the random and plug-in trees, also with one long-lived verifier per "
     "check set that has verified all earlier trees) with the general check set and, where relevant, with the DBC and C plug-in checks registered.  "
@@ -82,21 +82,33 @@ def build(t):
     from fcp.specs.metadata import MetaData
 
     meta = MetaData(1, 1, 1, 1, 0, 0, "main.fcp")
+    # 'share_equal': declarations with identical descriptions are ONE node object listed twice (what
+    # merging the same parsed module twice, or a caller assembling a tree by hand, produces)
+    share = {} if t.get("share_equal") else None
+
+    def shared(kind, d, make):
+        if share is None:
+            return make(d)
+        key = kind + repr(d)
+        if key not in share:
+            share[key] = make(d)
+        return share[key]
+
     return FcpV2(
         structs=[
-            Struct(name=s["name"], fields=[StructField(f["name"], f["id"], mk_type(f["type"])) for f in s["fields"]], meta=meta)
+            shared("s", s, lambda s: Struct(name=s["name"], fields=[StructField(f["name"], f["id"], mk_type(f["type"])) for f in s["fields"]], meta=meta))
             for s in t["structs"]
         ],
-        enums=[Enum(e["name"], [Enumeration(n, v, meta) for n, v in e["values"]], meta) for e in t["enums"]],
+        enums=[shared("e", e, lambda e: Enum(e["name"], [Enumeration(n, v, meta) for n, v in e["values"]], meta)) for e in t["enums"]],
         impls=[
-            Impl(i["name"], i["protocol"], i["type"], dict(i["fields"]), [SignalBlock(s["name"], dict(s["fields"]), meta) for s in i.get("signals", [])], meta)
+            shared("i", i, lambda i: Impl(i["name"], i["protocol"], i["type"], dict(i["fields"]), [SignalBlock(s["name"], dict(s["fields"]), meta) for s in i.get("signals", [])], meta))
             for i in t["impls"]
         ],
         services=[
-            Service(s["name"], s["id"], [Method(m["name"], m["id"], m["input"], m["output"], meta) for m in s["methods"]], meta)
+            shared("v", s, lambda s: Service(s["name"], s["id"], [Method(m["name"], m["id"], m["input"], m["output"], meta) for m in s["methods"]], meta))
             for s in t["services"]
         ],
-        devices=[Device(d["name"], dict(d["fields"]), meta) for d in t["devices"]],
+        devices=[shared("d", d, lambda d: Device(d["name"], dict(d["fields"]), meta)) for d in t["devices"]],
     )
 
 
@@ -191,6 +203,20 @@ class ReusedVerifiers:
 REUSED = ReusedVerifiers()
 
 
+def aliased(r, t):
+    """A copy of tree description t in which one declaration is listed twice; build() makes the two
+    entries the same node object.  None when t has nothing to duplicate."""
+    kinds = [k for k in ("structs", "enums", "impls", "devices", "services") if t[k]]
+    if not kinds:
+        return None
+    p = copy.deepcopy(t)
+    k = r.choice(kinds)
+    i = r.randrange(len(p[k]))
+    p[k].insert(r.randint(0, len(p[k])), copy.deepcopy(p[k][i]))
+    p["share_equal"] = True
+    return p, k
+
+
 def permuted(r, t):
     p = copy.deepcopy(t)
     for k in ("structs", "enums", "impls", "services", "devices"):
@@ -220,7 +246,7 @@ def judge(run, t, checkset, origin, nperm=0, rng=None, sample=False):
     run.count("expected_ok" if want else "expected_err")
     if origin.startswith(("random", "plugin")):
         REUSED.verdict(run, t, checkset, got, case)
-    size = sum(len(t[k]) for k in t)
+    size = sum(len(v) for v in t.values() if isinstance(v, list))
     run.case(sig="%s|%s|%s|%s|n%d" % (origin.split("/")[0], checkset, "ok" if want else "err", ",".join(rules), min(size, 12)))
     if sample and len(run.samples) < 4:
         run.sample({"tree": t, "checkset": checkset, "specification": "well-formed" if want else reasons, "verify": "Ok" if got else "Err"})
@@ -233,7 +259,7 @@ def judge(run, t, checkset, origin, nperm=0, rng=None, sample=False):
             run.violation("verdict changes under a permutation of the declarations (%s -> %s, check set %s)" % (got, gp, checkset), {"tree": t, "permuted": p, "checkset": checkset})
             return
         run.count("permutations_agree")
-    if want and checkset == "general":
+    if want and checkset == "general" and not t.get("share_equal"):
         dispatch_probe(run, t, case)
 
 
@@ -523,6 +549,11 @@ def run(run):
             continue
         judge(run, t, "general", "random/" + rule, nperm=run.pick(3, 6), rng=r, sample=(i % 97 == 0))
         run.count("injected/" + rule)
+        if i % 3 == 0:
+            a = aliased(r, base)
+            if a is not None:
+                judge(run, a[0], "general", "aliased/" + a[1], nperm=1, rng=r)
+                run.count("aliased_node_trees")
     m = run.pick(300, 3000)
     for i in range(m):
         if not run.mine(i):
@@ -538,7 +569,7 @@ def run(run):
 
 
 def conclude(run):
-    run.require("reused_verifier_verdicts", "verify_calls", "verdicts_agree", "expected_ok", "expected_err", "permutations_agree", "dispatch_probes")
+    run.require("aliased_node_trees", "reused_verifier_verdicts", "verify_calls", "verdicts_agree", "expected_ok", "expected_err", "permutations_agree", "dispatch_probes")
     for rule in RULES:
         if run.counters.get("injected/" + rule, 0) == 0:
             run.inconclusive_because("rule '%s' was never injected" % rule)
